@@ -16,7 +16,13 @@ ONE = mpf(1)
 
 
 def M(x):
-    return x if isinstance(x, mpf) else mpf(x)
+    if isinstance(x, mpf):
+        return x
+    if isinstance(x, (int, float, str)):
+        return mpf(x)
+    if hasattr(x, "item"):  # numpy scalars
+        return mpf(x.item())
+    return mpf(x)
 
 
 def copysign(a, b):
